@@ -91,7 +91,10 @@ def generate_subgraphs(graph: IterationNode) -> list[IterationNode]:
             all_subgraphs.update(new_graphs)
             old_subgraphs = new_graphs
 
-    return list(all_subgraphs.values())
+    # Emit subgraphs with more sparse layers first. A subgraph reached again later (because zeroing
+    # a tensor also zeroes the tensors multiplied by it) keeps its first position in the dictionary,
+    # so insertion order alone does not guarantee that the subgraph with no sparse layers is last.
+    return sorted(all_subgraphs.values(), key=lambda g: -len(g.compressed_dimensions()))
 
 
 @to_ir_iteration_graph.register(IterationNode)
